@@ -589,6 +589,12 @@ impl<'a, 'b> Gen<'a, 'b> {
                 self.kw("if");
                 self.sym("(");
                 self.expr(2);
+                if self.t.chance(1, 8) {
+                    // cond_predicate ::= expression_or_cond_pattern { &&& expression_or_cond_pattern }
+                    self.tag("cond-predicate-and");
+                    self.sym("&&&");
+                    self.primary(0);
+                }
                 self.sym(")");
                 self.stmt_or_null(d - 1);
                 let mut k = 0;
